@@ -39,7 +39,7 @@ static C01: Check = Check {
 static C02: Check = Check {
     property: "C02",
     level: "fault_enumeration",
-    rule: "one run = one honest credential, then every fault of the catalogue applied to a copy of the Credential frame and delivered to the holder: 40 of the 640 signature bit flips (run index mod 16 selects the slice, so 16 consecutive runs enumerate all 640), every single-element list fault for L<=8 (alter first/middle/last byte, drop, dup, swap, insert, truncate, extend), 9 header faults, misroute to other suite / blind interface / other key, 6 stored-pk bit flips, blind-interface signature at plain endpoints; verdict by content (MustReject unless the delivered statement equals a signed one); a case = one delivered frame that reached the verifier; every fourth run uses a list length from {128, 257, 64, 32, 129, 256, 33, 65, 127, 258, 63, 31, 255} (walked by the run index) with the edge edits (first / last element, append, cut the tail, swap across the list) plus a random sample instead of the complete catalogue, long lists disclosed completely; headers / presentation headers also of 4095, 4096, 4097 and 6000 octets",
+    rule: "one run = one honest credential, then every fault of the catalogue applied to a copy of the Credential frame and delivered to the holder: 40 of the 640 signature bit flips (run index mod 16 selects the slice, so 16 consecutive runs enumerate all 640), every single-element list fault for L<=8 (alter first/middle/last byte, drop, dup, swap, insert, truncate, extend), 9 header faults, misroute to other suite / blind interface / other key, 6 stored-pk bit flips, blind-interface signature at plain endpoints; verdict by content (MustReject unless the delivered statement equals a signed one); a case = one delivered frame that reached the verifier; every fourth run uses a list length from {128, 257, 64, 32, 129, 256, 33, 65, 127, 258, 63, 31, 255} (walked by the run index) with the edge edits (first / last element, append, cut the tail, swap across the list) plus a random sample instead of the complete catalogue, long lists disclosed completely; headers / presentation headers also of 4095, 4096, 4097 and 6000 octets; framing: lists sometimes start with x, x SEP x (SEP in NUL , newline 0x1f |), list faults include the boundary shift (last octet of element i to the front of element i + 1), headers are sometimes a non-canonical JSON object and octet faults insert a blank / a newline",
     quick_runs: 64,
     thorough_runs: 640,
     run: scen_sig::run_c02,
@@ -66,7 +66,7 @@ static C03: Check = Check {
 static C04: Check = Check {
     property: "C04",
     level: "fault_enumeration",
-    rule: "one run = one honest presentation, then the corrupting catalogue on the Presentation frame: bit flips of the 272 fixed octets in 16 slices (16 consecutive runs enumerate all 2176) plus all 256 bits of one m^ response; truncation/extension by whole scalars; dropped/inserted response; every single-element fault of the disclosed-message list; every integer corruption of every index; permuted / dropped / duplicated / added (index, message) pairs; 9 header and 9 ph faults; header<->ph swap; misroute to other suite / blind interface / other key / stored-pk bit flips; and Mallory's frames built from public data only (8 degenerate-element families x 3 claimed statements, through from_bytes and through the JSON decoder); verdict by content; a case = one delivered frame; every fourth run uses a list length from {128, 257, 64, 32, 129, 256, 33, 65, 127, 258, 63, 31, 255} (walked by the run index) with the edge edits (first / last element, append, cut the tail, swap across the list) plus a random sample instead of the complete catalogue, long lists disclosed completely; headers / presentation headers also of 4095, 4096, 4097 and 6000 octets",
+    rule: "one run = one honest presentation, then the corrupting catalogue on the Presentation frame: bit flips of the 272 fixed octets in 16 slices (16 consecutive runs enumerate all 2176) plus all 256 bits of one m^ response; truncation/extension by whole scalars; dropped/inserted response; every single-element fault of the disclosed-message list; every integer corruption of every index; permuted / dropped / duplicated / added (index, message) pairs; 9 header and 9 ph faults; header<->ph swap; misroute to other suite / blind interface / other key / stored-pk bit flips; and Mallory's frames built from public data only (8 degenerate-element families x 3 claimed statements, through from_bytes and through the JSON decoder); verdict by content; a case = one delivered frame; every fourth run uses a list length from {128, 257, 64, 32, 129, 256, 33, 65, 127, 258, 63, 31, 255} (walked by the run index) with the edge edits (first / last element, append, cut the tail, swap across the list) plus a random sample instead of the complete catalogue, long lists disclosed completely; headers / presentation headers also of 4095, 4096, 4097 and 6000 octets; framing: lists sometimes start with x, x SEP x (SEP in NUL , newline 0x1f |), list faults include the boundary shift (last octet of element i to the front of element i + 1), headers are sometimes a non-canonical JSON object and octet faults insert a blank / a newline; Mallory's complete transcript without a signature (Abar = alpha*D, Bbar = beta*D, D = k*Bv: passes the challenge comparison, fails only the pairing); half of the forged frames are presented a second time to the same verifier thread",
     quick_runs: 48,
     thorough_runs: 480,
     run: scen_proof::run_c04,
@@ -80,7 +80,7 @@ static C04: Check = Check {
 static C08: Check = Check {
     property: "C08",
     level: "fault_enumeration",
-    rule: "the space {15 octet-string entry points} x {7 content classes: honest (truncated below / extended by scalar-shaped material above its length), honest with one bit flipped, zeros, 0xFF, identity pattern, PRNG, honest prefix + maxed scalars} x {every length 0..=1024} (fixed-size parameters: 64 content variants at the only admissible length), plus {6 serde_json decoders} x {every truncation of the honest JSON, every value leaf replaced by 11 wrong-type tokens, huge arrays/strings}, plus corrupted integers (every index entry, L, update_index over {0,1,L-1,L,L+1,+-1,2^31,2^32,2^63,MAX-1,MAX}) and malformed index lists, is split by run index: run k enumerates one (entry, class) completely; 129 consecutive runs cover the whole space; a case = one delivered frame; the victim node must return, within 64+4*measure ticks and 1MiB+16KiB*measure requested bytes (measure = ceil(octets/32) + index entries + trusted counts); the wrong-type catalogue of the JSON decoders includes non-hex, UTF-8 and upper-case strings of 64, 96, 192 and 384 characters (every length a codec of the library knows)",
+    rule: "the space {15 octet-string entry points} x {7 content classes: honest (truncated below / extended by scalar-shaped material above its length), honest with one bit flipped, zeros, 0xFF, identity pattern, PRNG, honest prefix + maxed scalars} x {every length 0..=1024} (fixed-size parameters: 64 content variants at the only admissible length), plus {6 serde_json decoders} x {every truncation of the honest JSON, every value leaf replaced by 11 wrong-type tokens, huge arrays/strings}, plus corrupted integers (every index entry, L, update_index over {0,1,L-1,L,L+1,+-1,2^31,2^32,2^63,MAX-1,MAX}) and malformed index lists, is split by run index: run k enumerates one (entry, class) completely; 129 consecutive runs cover the whole space; a case = one delivered frame; the victim node must return, within 64+4*measure ticks and 1MiB+16KiB*measure requested bytes (measure = ceil(octets/32) + index entries + trusted counts); the wrong-type catalogue of the JSON decoders includes non-hex, UTF-8 and upper-case strings of 64, 96, 192 and 384 characters (every length a codec of the library knows); JSON frames with every enum variant name of the generic types (BBSplus, CL03, _Unreachable, unknown, empty) over null / the honest payload / an empty array; update_signature also with message counts n in {0, 1, L-1 .. L+2, usize::MAX} and with an old signature whose e is -SK; deserialize_and_validate_commit with 8 / exactly M / M +- 1 / M + 2 / no blind generators",
     quick_runs: 129,
     thorough_runs: 258,
     run: scen_robust::run_c08,
@@ -94,7 +94,7 @@ static C08: Check = Check {
 static C09: Check = Check {
     property: "C09",
     level: "fault_enumeration",
-    rule: "per artefact type {PublicKey, SecretKey, Signature, BlindSignature, PoKSignature, ZKPoK, Commitment, BlindFactor} and ciphersuite, around an honest encoding: (part 0) store round trips across a node restart in every codec (octets, JSON, pk coordinates), extension by 1..=64 octets x 3 content classes, truncation to every length; (part 1) every single-bit flip; (part 2) every non-canonical / forbidden substitution in every point and scalar slot (scalar+r, +2r, =r, =2^256-1, =0, =r-1; identity, identity+sort flag, infinity flag with non-zero x, compression flag cleared, infinity flag on a point, non-subgroup point, off-curve x, x>=p, sort flag flipped); run index -> (suite, type, part): 48 consecutive runs enumerate everything; oracle: accepted => re-encoding equals the delivered octets, forbidden class => Err; a case = one delivered octet string that reached a decoder (wrong lengths for fixed-size array parameters are excluded by the type and not counted); the coordinate form x || y fed to the octet decoder (a foreign encoding of the same key), and forbidden coordinates (a curve point outside the subgroup, a point off the curve, infinity); the library's key store (KeyPair::write_keypair_to_file) on a path with each of four histories (nothing there, a longer older document, a shorter one, another key pair written just before), a crash of the role, and the reload of the file; JSON decoded through from_str / from_reader / from_value",
+    rule: "per artefact type {PublicKey, SecretKey, Signature, BlindSignature, PoKSignature, ZKPoK, Commitment, BlindFactor} and ciphersuite, around an honest encoding: (part 0) store round trips across a node restart in every codec (octets, JSON, pk coordinates), extension by 1..=64 octets x 3 content classes, truncation to every length; (part 1) every single-bit flip; (part 2) every non-canonical / forbidden substitution in every point and scalar slot (scalar+r, +2r, =r, =2^256-1, =0, =r-1; identity, identity+sort flag, infinity flag with non-zero x, compression flag cleared, infinity flag on a point, non-subgroup point, off-curve x, x>=p, sort flag flipped); run index -> (suite, type, part): 48 consecutive runs enumerate everything; oracle: accepted => re-encoding equals the delivered octets, forbidden class => Err; a case = one delivered octet string that reached a decoder (wrong lengths for fixed-size array parameters are excluded by the type and not counted); the coordinate form x || y fed to the octet decoder (a foreign encoding of the same key), and forbidden coordinates (a curve point outside the subgroup, a point off the curve, infinity); the library's key store (KeyPair::write_keypair_to_file) on a path with each of four histories (nothing there, a longer older document, a shorter one, another key pair written just before), a crash of the role, and the reload of the file; JSON decoded through from_str / from_reader / from_value; signature octets of other lengths through the slice entry points (proof_gen, blind_proof_gen); one extra run per 49 GRINDS: four threads walk k*G until they meet points of G1 whose x-coordinate starts with the leading octets 1a 01 11 of the field modulus, fed to the signature and commitment decoders",
     quick_runs: 49,
     thorough_runs: 196,
     run: scen_codec::run_c09,
@@ -121,7 +121,7 @@ static C05: Check = Check {
 static C06: Check = Check {
     property: "C06",
     level: "fault_enumeration",
-    rule: "one run = one honest blind session (shape from the same 642-combination table), then: on the BlindRequest hop every bit flip of the commitment-with-proof in slices of 112 bits across runs, truncation/extension by whole scalars, dropped/inserted response, cross-suite replay, commitment/proof splices with a second honest request; on the BlindCredential hop every single-element fault of the committed and signer message lists, message moved across the signer/committed boundary, 32 blind-factor bit flips per run (8 runs cover all 256), blind factor removed, header faults, 40 signature bit flips, pk faults, misroute; on the Presentation hop L corruption, every list / index fault of both disclosed lists, pair moved between lists, header/ph faults, 64 proof bit flips per run, whole-scalar truncation/extension, misroute; verdict by content; every fourth run commits to 128, 64, 32, 129, 33, 65, 127, 63 or 31 messages (walked by the run index); Mallory also sends a commitment point OUTSIDE the subgroup (C + T, T of order 3) with a proof ground until the challenge kills c*T, one frame per residue of the challenge modulo 3",
+    rule: "one run = one honest blind session (shape from the same 642-combination table), then: on the BlindRequest hop every bit flip of the commitment-with-proof in slices of 112 bits across runs, truncation/extension by whole scalars, dropped/inserted response, cross-suite replay, commitment/proof splices with a second honest request; on the BlindCredential hop every single-element fault of the committed and signer message lists, message moved across the signer/committed boundary, 32 blind-factor bit flips per run (8 runs cover all 256), blind factor removed, header faults, 40 signature bit flips, pk faults, misroute; on the Presentation hop L corruption, every list / index fault of both disclosed lists, pair moved between lists, header/ph faults, 64 proof bit flips per run, whole-scalar truncation/extension, misroute; verdict by content; every fourth run commits to 128, 64, 32, 129, 33, 65, 127, 63 or 31 messages (walked by the run index); Mallory also sends a commitment point OUTSIDE the subgroup (C + T, T of order 3) with a proof ground until the challenge kills c*T, one frame per residue of the challenge modulo 3; whole-scalar extensions also with blocks that are not canonical scalars (r, r + 4, all ones: after s^, before the challenge, appended); index aliasing across the signer-side and committed lists of a presentation",
     quick_runs: 64,
     thorough_runs: 642,
     run: scen_blind::run_c06,
@@ -175,7 +175,7 @@ static C11: Check = Check {
 static C12: Check = Check {
     property: "C12",
     level: "exploration",
-    rule: "one run = one credential (L in 1..12; L = 1..6 in rotation on every fourth run with positions visited exhaustively) and a holder-intended history of up to 10 (thorough 32) single-message updates sent as UpdateRequest(i, old, new) frames over a channel that reorders, duplicates, drops and corrupts (index, old value) them; the Issuer applies them in arrival order; after each applied update the sequential model decides: correct old value => the reply verifies for the intended vector, keeps e, and its A equals B(vector)/(sk+e) computed by the spec model; index >= L => error; wrong old value (alteration, reorder, double application) => the reply must not verify for the intended vector; finally every epoch's signature is replayed against every other epoch's vector; a case = one update or one replay; 1 credential in 8 is long (65, 129, 254 .. 257 or 300 messages) and is updated at the positions around 64 / 128 / 254 .. 256 and at its last one",
+    rule: "one run = one credential (L in 1..12; L = 1..6 in rotation on every fourth run with positions visited exhaustively) and a holder-intended history of up to 10 (thorough 32) single-message updates sent as UpdateRequest(i, old, new) frames over a channel that reorders, duplicates, drops and corrupts (index, old value) them; the Issuer applies them in arrival order; after each applied update the sequential model decides: correct old value => the reply verifies for the intended vector, keeps e, and its A equals B(vector)/(sk+e) computed by the spec model; index >= L => error; wrong old value (alteration, reorder, double application) => the reply must not verify for the intended vector; finally every epoch's signature is replayed against every other epoch's vector; a case = one update or one replay; 1 credential in 8 is long (65, 129, 254 .. 257 or 300 messages) and is updated at the positions around 64 / 128 / 254 .. 256 and at its last one; new values related to the old one (extended by 1 / 255 / 256 / 257 / 512 octets, cut by 256) and, rarely, of 65535 / 65536 / 70000 octets",
     quick_runs: 300,
     thorough_runs: 1500,
     run: scen_update::run_c12,
